@@ -210,11 +210,10 @@ Section BoundedSource.
   Lemma policy_bounded : ff_policy s <> PUnbounded.
   Proof.
     unfold f2f_policy in Hpol.
-    destruct (vround c (FFin (rf_shift maxv 1))) as [[a|sa|sa]|]; try discriminate;
-      destruct (vround c (FFin (rf_shift negv 1))) as [[b|sb|sb]|]; try discriminate.
-    - destruct (rf_eqb a maxv && rf_eqb b negv); [|discriminate]. injection Hpol as <-. discriminate.
-    - destruct sa; [discriminate|]. destruct sb; [|discriminate]. injection Hpol as <-. discriminate.
-    - injection Hpol as <-. discriminate.
+    destruct (vround c (FFin (rf_shift maxv 1))) as [pos|]; [|discriminate].
+    destruct (vround c (FFin (rf_shift negv 1))) as [neg|]; [|discriminate].
+    destruct pos as [a|[|]|sa], neg as [b|[|]|sb]; try discriminate; try (injection Hpol as <-; discriminate).
+    destruct (rf_eqb a maxv && rf_eqb b negv); [injection Hpol as <-; discriminate|discriminate].
   Qed.
 
   Lemma f2f_ctx_bounded nfix reach :
@@ -230,8 +229,9 @@ Section BoundedSource.
     destruct (probe_overflows c U maxv negv (Some p) nmin rm ovr zU zC 1 Hb Hbo ltac:(lia)) as [P1 P2].
     unfold f2f_policy in Hpol. rewrite P1, P2 in Hpol.
     assert (Ppos : (0 < R2R maxv)%R) by (apply R2R_sign_pos; assumption).
-    destruct (ovr false) as [[a|sa|sa]|] eqn:E1; try discriminate;
-      destruct (ovr true) as [[b|sb|sb]|] eqn:E2; try discriminate.
+    destruct (ovr false) as [pos|] eqn:E1; [|discriminate].
+    destruct (ovr true) as [neg|] eqn:E2; [|discriminate].
+    destruct pos as [a|sa|sa], neg as [b|sb|sb]; try discriminate.
     - (* saturating *)
       destruct (rf_eqb a maxv && rf_eqb b negv) eqn:Eab; [|discriminate]. injection Hpol as Hpol.
       apply andb_prop in Eab as [Ea Eb].
